@@ -48,7 +48,7 @@ func (b *fencedCodeBlockParser) Open(parent ast.Node, reader text.Reader, pc Con
 		return nil, NoChildren
 	}
 	var info *ast.Text
-	if i < len(line)-1 {
+	if i < len(line) {
 		rest := line[i:]
 		left := util.TrimLeftSpaceLength(rest)
 		right := util.TrimRightSpaceLength(rest)
